@@ -238,6 +238,32 @@ fn c09_large_window_agreement() {
     println!("COMPANION-OK cases={}", cases);
 }
 
+/// chunks larger than the streaming chunker's 1 MiB refill step (the refill lines of poll_next are not under contract)
+#[test]
+fn c09_chunks_larger_than_refill() {
+    std::panic::set_hook(Box::new(|_| {}));
+    let mut rng = Rng(0x0909_0909_aaaa_5555);
+    let len = 4 * 1024 * 1024 + 321;
+    let x: Vec<u8> = (0..len).map(|_| rng.below(256) as u8).collect();
+    let mut cases = 0;
+    for c in [
+        Cfg { algo: Algo::Fixed, bits: 0, min: 0, max: 1024 * 1024 + 512 * 1024, w: 0 },
+        Cfg { algo: Algo::RollSum, bits: 19, min: 1200 * 1024, max: 3 * 1024 * 1024, w: 16 },
+        Cfg { algo: Algo::BuzHash, bits: 19, min: 1200 * 1024, max: 2 * 1024 * 1024 + 7, w: 16 },
+    ] {
+        let want = reference(&c, &x);
+        for script in [vec![], vec![300_000; 40], vec![1_000_000, 0, 48_576, 0, 2_000_000]] {
+            match catch(real(&c, &x, &script)) {
+                Ok(got) if got == want => {}
+                Ok(got) => witness("C09", &c, &x[..32], &script, &want[..want.len().min(6)], &format!("\"chunks {:?} (random stream of {} bytes, fixed seed)\"", &got[..got.len().min(6)], len)),
+                Err(e) => witness("C09", &c, &x[..32], &script, &want[..want.len().min(6)], &format!("{:?}", e)),
+            }
+            cases += 1;
+        }
+    }
+    println!("COMPANION-OK cases={}", cases);
+}
+
 /// C10: after a common boundary at least one window into the common data, all later boundaries agree
 #[test]
 fn c10_resynchronisation() {
